@@ -81,6 +81,17 @@ Theorem C19_typed_leaf_roundtrip : forall t v p,
   wf_ptype t -> wf v -> to_parquet t v = Some p -> of_parquet t p = Some v.
 Proof. exact of_to_parquet. Qed.
 
+(** typed decimal leaves as other writers store them (the library's own writer
+    uses 16 bytes only): a DECIMAL column of n <= 16 big-endian two's
+    complement bytes -- FIXED_LEN_BYTE_ARRAY(n), or a BYTE_ARRAY value of any
+    length that holds the number -- reads back as the decimal16 of that number,
+    negative or not (bigEndianToLittleEndian16 sign-extends to 16 bytes) *)
+Theorem C19_narrow_decimal_leaf : forall n precision scale z,
+  (1 <= n <= 16)%nat -> in_sint (8 * N.of_nat n) z ->
+  of_parquet (PTDec D16 precision scale) (PBytes (rev (to_le n (wrapZ (8 * N.of_nat n) z)))) =
+  Some (VDec D16 (Z.to_N scale mod 256) z).
+Proof. exact of_parquet_narrow_decimal. Qed.
+
 (** Headers as functions of sizes.  Containers of 16 MiB and dictionaries of
     65 536 names are too large for the line protocol of the oracle; for those
     the harness compares Go's header bytes with [array_header] /
@@ -112,6 +123,7 @@ Print Assumptions C19_reconstruct_shred.
 Print Assumptions C19_reconstruct_shred_bytes.
 Print Assumptions C19_row_dictionary.
 Print Assumptions C19_typed_leaf_roundtrip.
+Print Assumptions C19_narrow_decimal_leaf.
 Print Assumptions C19_array_header.
 Print Assumptions C19_object_header.
 Print Assumptions C19_metadata_header.
@@ -150,6 +162,13 @@ Proof. vm_compute. reflexivity. Qed.
 (* boundary sizes: a payload of exactly 255 / 256 bytes switches to 2-byte
    offsets, 256 elements switch to is_large; both decode back *)
 Definition ex_payload (n : nat) : value := VArray [VBinary (repeat 7 (n - 5))].
+(* decimal(20,2) -123.45 in FIXED_LEN_BYTE_ARRAY(9), as Spark / parquet-java store it; -1 in one byte *)
+Example C19_ex_narrow_decimal :
+  of_parquet (PTDec D16 20 2) (PBytes [255; 255; 255; 255; 255; 255; 255; 207; 199]) = Some (VDec D16 2 (-12345)%Z)
+  /\ of_parquet (PTDec D16 38 0) (PBytes [255]) = Some (VDec D16 0 (-1)%Z)
+  /\ rev (to_le 9 (wrapZ 72 (-12345))) = [255; 255; 255; 255; 255; 255; 255; 207; 199].
+Proof. repeat split; vm_compute; reflexivity. Qed.
+
 Example C19_ex_offset_threshold :
   hd 0 (snd (encode (ex_payload 255))) = 3 /\ hd 0 (snd (encode (ex_payload 256))) = 3 + 4 * 1 /\
   (let '(m, b) := encode (ex_payload 256) in decode m b) = Some (ex_payload 256).
